@@ -235,7 +235,7 @@ def st_other_frame(draw: st.DrawFn, spec: dict, entry: zoo.Entry, limit: int | N
         plain = draw(st.integers(0, 3)) == 0
         if bad and draw(st.integers(0, 3)) == 0:
             # a stray closing bracket where the next document should start (e.g. the tail of a rejected document)
-            return lead + draw(st.sampled_from([b"]", b"}"])) + trail
+            return lead + draw(st.sampled_from([b"]", b"}", b"]", b"}", b"\x00", b"\x7f", b"\x80", b"\xef"])) + trail
         if size <= limit - 1:
             size = max(1, size - len(lead) - len(trail) - _JSONRAW_MAX_PAD)
         if plain:
